@@ -217,12 +217,13 @@ type gateStore struct {
 	getKey     string
 	getHit     chan struct{}
 	getRelease chan struct{}
+	getAfter   bool
 }
 
 func (g *gateStore) armGet(key string) (hit <-chan struct{}, release func()) {
 	g.mu.Lock()
 	defer g.mu.Unlock()
-	g.getKey, g.getHit, g.getRelease = key, make(chan struct{}), make(chan struct{})
+	g.getKey, g.getHit, g.getRelease, g.getAfter = key, make(chan struct{}), make(chan struct{}), false
 	rel := g.getRelease
 	var once sync.Once
 	return g.getHit, func() { once.Do(func() { close(rel) }) }
@@ -230,17 +231,36 @@ func (g *gateStore) armGet(key string) (hit <-chan struct{}, release func()) {
 
 func (g *gateStore) Get(key string) (any, error) {
 	g.mu.Lock()
-	var rel chan struct{}
+	var rel, relAfter chan struct{}
 	if g.getKey != "" && key == g.getKey {
 		g.getKey = ""
-		rel = g.getRelease
-		close(g.getHit)
+		if g.getAfter {
+			relAfter = g.getRelease
+		} else {
+			rel = g.getRelease
+			close(g.getHit)
+		}
 	}
 	g.mu.Unlock()
 	if rel != nil {
 		<-rel
 	}
-	return g.Storage.Get(key)
+	v, err := g.Storage.Get(key)
+	if relAfter != nil {
+		// the caller has read the record; it gets the answer only when released
+		close(g.getHit)
+		<-relAfter
+	}
+	return v, err
+}
+
+// armGetAfter: the next Get of key performs its read and is then held before it returns.
+func (g *gateStore) armGetAfter(key string) (hit <-chan struct{}, release func()) {
+	hit, release = g.armGet(key)
+	g.mu.Lock()
+	g.getAfter = true
+	g.mu.Unlock()
+	return
 }
 
 func (g *gateStore) arm(key string) (hit <-chan struct{}, release func()) {
@@ -265,6 +285,47 @@ func (g *gateStore) Set(key string, value any, ttl time.Duration) error {
 		<-rel
 	}
 	return g.Storage.Set(key, value, ttl)
+}
+
+// gatedPMS is the real PortMappingService handed to the connection-code service; when armed, the k-th
+// GetPortMapping of the armed mapping returns its (real) answer only after the gate is released: the caller has READ
+// the record and has not yet written it back — outside the repository's read coalescing, and wherever the caller
+// takes its lock.
+type gatedPMS struct {
+	services.PortMappingService
+	mu      sync.Mutex
+	id      string
+	left    int
+	hit     chan struct{}
+	release chan struct{}
+}
+
+func (g *gatedPMS) armRead(id string, kth int) (hit <-chan struct{}, release func()) {
+	g.mu.Lock()
+	defer g.mu.Unlock()
+	g.id, g.left, g.hit, g.release = id, kth, make(chan struct{}), make(chan struct{})
+	rel := g.release
+	var once sync.Once
+	return g.hit, func() { once.Do(func() { close(rel) }) }
+}
+
+func (g *gatedPMS) GetPortMapping(id string) (*models.PortMapping, error) {
+	m, err := g.PortMappingService.GetPortMapping(id)
+	g.mu.Lock()
+	var rel chan struct{}
+	if g.id != "" && id == g.id {
+		g.left--
+		if g.left == 0 {
+			g.id = ""
+			rel = g.release
+			close(g.hit)
+		}
+	}
+	g.mu.Unlock()
+	if rel != nil {
+		<-rel
+	}
+	return m, err
 }
 
 // ---------------------------------------------------------------- auth double
@@ -470,8 +531,10 @@ type world struct {
 	mrepo  *repos.PortMappingRepo
 	pms    services.PortMappingService
 	ccs    *services.ConnectionCodeService
+	ccs2   *services.ConnectionCodeService
 	cc     *managers.BuiltinCloudControl
 	gs     *gateStore
+	gpms   *gatedPMS
 	st     storage.Storage
 	decoy  *assertingConn
 	rt     *session.TunnelRoutingTable
@@ -492,8 +555,13 @@ func newWorldCfg(cfg string) *world {
 	cc := factories.NewBuiltinCloudControlWithRepo(w.ctx, managers.DefaultConfig(), st, repo)
 	w.mrepo = repos.NewPortMappingRepo(repo)
 	w.pms = cc.GetPortMappingService()
-	ccs := services.NewConnectionCodeService(repos.NewConnectionCodeRepository(repo), cc.GetPortMappingService(), w.mrepo, nil, w.ctx)
+	w.gpms = &gatedPMS{PortMappingService: cc.GetPortMappingService()}
+	ccs := services.NewConnectionCodeService(repos.NewConnectionCodeRepository(repo), w.gpms, w.mrepo, nil, w.ctx)
 	w.ccs, w.cc = ccs, cc
+	// a second, independent instance of the services over the same storage (another component of the same process):
+	// its repository has its own read coalescing, the per-mapping lock is shared
+	pms2 := services.NewPortMappingService(w.mrepo, idgen.NewIDManager(st, w.ctx), nil, w.ctx)
+	w.ccs2 = services.NewConnectionCodeService(repos.NewConnectionCodeRepository(repo), pms2, w.mrepo, nil, w.ctx)
 	th := server.NewServerTunnelHandler(cc, ccs)
 	w.sm = session.NewSessionManager(idgen.NewIDManager(st, w.ctx), w.ctx)
 	w.sm.SetTunnelHandler(th)
@@ -789,7 +857,7 @@ func runE2E() string {
 
 // runRMW: a revocation racing a read-modify-write of the same mapping record.
 //
-//	case: rmw <usage|stats|status>    obs: revoked <0|1> ack <..> att <..> data <0|1>
+//	case: rmw <usage|usage-read1|usage-read2|stats|stats-read1|status|status-read1>    obs: revoked <0|1> ack <..> att <..> data <0|1>
 //
 // usage  = the listen client opens a tunnel: HandleTunnelOpen → RecordMappingUsage reads the record, sets LastActive
 //
@@ -812,22 +880,38 @@ func runRMW(writer string) string {
 		return "setup-failed:connect"
 	}
 	w.handshake(src, mapM.listen, true)
-	if writer != "usage" {
+	if !strings.HasPrefix(writer, "usage") {
 		w.open(src, openPayload(mapM.id, "", "")) // the waiting tunnel exists before the race
 		src.cli.drain()
 	}
-	hit, release := w.gs.arm(key)
+	var hit <-chan struct{}
+	var release func()
+	switch writer {
+	case "usage-read1":
+		// held right after the record was read for the permission check (ValidateMapping)
+		hit, release = w.gpms.armRead(mapM.id, 1)
+	case "usage-read2":
+		// held right after RecordMappingUsage read the record it is about to write back
+		hit, release = w.gpms.armRead(mapM.id, 2)
+	case "stats-read1", "status-read1":
+		// held right after the repository read the record it is about to write back (the revocation then comes
+		// from the second service instance, which does not share this repository's in-flight read)
+		hit, release = w.gs.armGetAfter(key)
+	default:
+		// held at the write-back itself
+		hit, release = w.gs.arm(key)
+	}
 	defer release()
 	wdone := make(chan struct{})
 	go func() {
 		defer close(wdone)
 		defer func() { recover() }()
 		switch writer {
-		case "usage":
+		case "usage", "usage-read1", "usage-read2":
 			w.open(src, openPayload(mapM.id, "", ""))
-		case "stats":
+		case "stats", "stats-read1":
 			w.cc.UpdatePortMappingStats(mapM.id, &stats.TrafficStats{BytesSent: 10, BytesReceived: 20, LastUpdated: time.Now()})
-		case "status":
+		case "status", "status-read1":
 			w.pms.UpdatePortMappingStatus(mapM.id, models.MappingStatusActive)
 		}
 	}()
@@ -837,7 +921,11 @@ func runRMW(writer string) string {
 		return "setup-failed:writer-not-at-write"
 	}
 	rdone := make(chan error, 1)
-	go func() { rdone <- w.ccs.RevokeMapping(mapM.id, mapM.target, "target-client") }()
+	revoker := w.ccs
+	if strings.HasSuffix(writer, "-read1") && !strings.HasPrefix(writer, "usage") {
+		revoker = w.ccs2
+	}
+	go func() { rdone <- revoker.RevokeMapping(mapM.id, mapM.target, "target-client") }()
 	var rerr error
 	revDone := false
 	select { // as found the revocation completes here; serialised writers make it wait for the pending write
@@ -1273,6 +1361,13 @@ func runCaseInner(c *caseT) string {
 	acks := 0
 	for buf := r.cli.snapshot(); len(buf) > 0; {
 		a, more := readAck(buf)
+		if a == "other" {
+			// a well-formed control packet (the TunnelOpenRequest command that notifyTargetClientToOpenTunnel pushes to
+			// a connection whose transport names the target client — possibly the requester itself, at a time of the
+			// notifier's choosing): neither an acknowledgement nor tunnel traffic
+			buf = more
+			continue
+		}
 		if a != "ok" && a != "fail" {
 			if !data && a != "none" {
 				data = true
@@ -1713,7 +1808,7 @@ func main() {
 		}
 		runAll(out, lines, "zero-listen-matrix")
 		runAll(out, []string{"e2e"}, "e2e")
-		runAll(out, []string{"rmw usage", "rmw stats", "rmw status"}, "rmw")
+		runAll(out, []string{"rmw usage", "rmw usage-read1", "rmw usage-read2", "rmw stats", "rmw stats-read1", "rmw status", "rmw status-read1"}, "rmw")
 		n := 600
 		if *tier == "thorough" {
 			n = 12000
